@@ -46,6 +46,8 @@ type SpecEnv struct {
 	lazy  map[string]lazyDeref
 	pkg   *ssa.Package
 	inOld bool
+	// noUnfold: inside the unfolding of a recursive spec function, inner applications stay folded
+	noUnfold bool
 }
 
 func (x *Exec) newSpecEnv(fr *Frame, st, old *State) *SpecEnv {
@@ -1196,7 +1198,7 @@ func (x *Exec) applySpecFunc(env *SpecEnv, sf *SpecFunc, args []Expr) TV {
 		}
 		vals = append(vals, tv)
 	}
-	if sf.Body != nil {
+	evalBody := func(noUnfold bool) TV {
 		sub := *env
 		sub.names = map[string]TV{}
 		for k, v := range env.names {
@@ -1205,10 +1207,36 @@ func (x *Exec) applySpecFunc(env *SpecEnv, sf *SpecFunc, args []Expr) TV {
 		for i, p := range sf.Params {
 			sub.names[p.Name] = vals[i]
 		}
+		if sf.Pkg != "" {
+			if sp := x.P.Package(sf.Pkg); sp != nil {
+				sub.pkg = sp
+			}
+		}
+		sub.noUnfold = noUnfold
 		return x.evalSpec(&sub, sf.Body)
 	}
+	if sf.Body != nil && !sf.Rec {
+		return evalBody(env.noUnfold)
+	}
+	if sf.Rec && sf.Body != nil && !env.noUnfold {
+		// recursive definition: the application is an uninterpreted term plus its one-step unfolding
+		envNo := *env
+		envNo.noUnfold = true
+		app := x.applySpecFuncVals(&envNo, sf, vals)
+		body := evalBody(true)
+		env.state().Assume(x.specEq(env, app, body))
+		return app
+	}
+	return x.applySpecFuncVals(env, sf, vals)
+}
+
+func (x *Exec) applySpecFuncVals(env *SpecEnv, sf *SpecFunc, vals []TV) TV {
 	// uninterpreted
 	var ins []*Term
+	if sf.Rec {
+		// a recursive definition may read memory: its value is tied to the heap epoch
+		ins = append(ins, x.epochTerm(env.state()))
+	}
 	for i, v := range vals {
 		ins = append(ins, x.flattenTV(v, sf.Params[i].Type)...)
 	}
@@ -1353,6 +1381,10 @@ func (x *Exec) specMethodCall(env *SpecEnv, sel *ESel, args []Expr) TV {
 			}
 		}
 		val, _ := x.unflatten(rt, ts)
+		// same assumptions as at a call site in code: representation invariant, and the result
+		// refers to memory that existed at entry (a getter does not allocate what it returns)
+		x.assumeTypeInv(env.state(), rt, val)
+		x.markOld(env.state(), rt, val)
 		return TV{val, rt}
 	case *PtrV:
 		if fn := x.findMethod(v.Elem, mname); fn != nil {
